@@ -222,6 +222,8 @@ enum Host {
     Core,
     Legacy,
     Mixed,
+    /// legacy timers; the observation is the occupancy of the process-wide cleared-timer set (C13)
+    LSet,
 }
 
 struct Case {
@@ -238,6 +240,7 @@ fn parse_case(line: &str) -> Option<Case> {
         "core" => Host::Core,
         "legacy" => Host::Legacy,
         "mixed" => Host::Mixed,
+        "lset" => Host::LSet,
         _ => return None,
     };
     let kind_str = it.next()?;
@@ -251,7 +254,7 @@ fn parse_case(line: &str) -> Option<Case> {
             _ => None,
         })
         .collect::<Option<_>>()?;
-    let leg: Vec<bool> = kind_str.chars().map(|c| host == Host::Legacy || c.is_ascii_lowercase()).collect();
+    let leg: Vec<bool> = kind_str.chars().map(|c| host == Host::Legacy || host == Host::LSet || c.is_ascii_lowercase()).collect();
     if kinds.is_empty() || kinds.len() > 9 {
         return None;
     }
@@ -264,7 +267,7 @@ fn parse_case(line: &str) -> Option<Case> {
             return None;
         }
         let allowed = match host {
-            Host::Legacy => "pfwkrcasS",
+            Host::Legacy | Host::LSet => "pfwkrcasS",
             Host::Mixed if leg[i] => "pfwkrcasS",
             Host::Mixed => "pfwkrchabyxsS",
             _ => "pfwkrchabyx",
@@ -467,6 +470,10 @@ fn run_core(case: &Case) -> String {
     // when a stale waker wakes the slot the panicked task left empty); the rest of the case prints `dead`
     let mut core_dead = false;
     let mut out = vec![];
+    // host `lset`: per step, which of the case's timers have their id in the cleared-timer set / are outstanding
+    // (started, callback not yet run)
+    let mut finished = vec![false; n];
+    let mut set_out: Vec<String> = vec![];
     if premade {
         let effects = core.process_event(Event::Init(case.kinds.clone()));
         assert!(effects.is_empty());
@@ -559,9 +566,24 @@ fn run_core(case: &Case) -> String {
         stash(&raws, &mut held, &mut rec, effects);
         for l in &view.log[seen_log..] {
             rec.push(show_log(&raws, l));
+            if let LogItem::Got(j, _, _) = l {
+                finished[*j] = true;
+            }
         }
         seen_log = view.log.len();
         out.push(rec.join(","));
+        if case.host == Host::LSet {
+            let in_set = crux_time::verif_cleared_timer_ids();
+            let c: String = (0..n).filter(|j| raws[*j].is_some_and(|id| in_set.binary_search(&id).is_ok())).map(|j| j.to_string()).collect();
+            let o: String = (0..n).filter(|j| raws[*j].is_some() && !finished[*j]).map(|j| j.to_string()).collect();
+            set_out.push(format!("c{c}/o{o}"));
+        }
+    }
+    if case.host == Host::LSet {
+        if core_dead {
+            set_out.push("dead".into());
+        }
+        return format!("set {}", set_out.join(" "));
     }
     let mut res = vec![ids_class(&created).to_string()];
     res.extend(out);
@@ -707,7 +729,7 @@ fn gen_exh(maxlen: usize, host: &str, kinds: &str) {
 }
 
 /// every sequence up to `maxlen` over the legacy alphabet for one timer (a start first, duplicates bounded)
-fn gen_exh_legacy(maxlen: usize) {
+fn gen_exh_legacy(maxlen: usize, host: &str) {
     let out = std::io::stdout();
     let mut out = std::io::BufWriter::new(out.lock());
     fn rec(prefix: &mut Vec<char>, maxlen: usize, emit: &mut dyn FnMut(&[char])) {
@@ -731,7 +753,7 @@ fn gen_exh_legacy(maxlen: usize) {
         let kind = ["A", "T"][k % 2];
         k += 1;
         let acts: Vec<String> = p.iter().map(|c| format!("{c}0")).collect();
-        writeln!(out, "legacy {kind} {}", acts.join(" ")).unwrap();
+        writeln!(out, "{host} {kind} {}", acts.join(" ")).unwrap();
     });
 }
 
@@ -854,6 +876,57 @@ fn gen_mixed(seed: u64, n: usize) {
     }
 }
 
+/// host `lset` (C13, occupancy of the cleared-timer set): 1..9 legacy timers; a third of the cases are long
+/// set / fire / clear cycles (each timer goes through start, answer and clear in a random order, timers interleaved),
+/// the rest random sequences over the legacy alphabet
+fn gen_lset(seed: u64, n: usize) {
+    let mut r = Rng::new(seed ^ 0x6c73_6574);
+    let out = std::io::stdout();
+    let mut out = std::io::BufWriter::new(out.lock());
+    for c in 0..n {
+        let nt = 1 + r.below(9) as usize;
+        let kinds: String = (0..nt).map(|_| if r.chance(1, 2) { 'A' } else { 'T' }).collect();
+        let mut acts: Vec<String> = vec![];
+        if c % 3 == 0 {
+            // per timer a script; the scripts are interleaved at random
+            let mut scripts: Vec<Vec<char>> = (0..nt)
+                .map(|_| {
+                    let mut v: Vec<char> = match r.below(6) {
+                        0 => vec!['s', 'f', 'c'],
+                        1 => vec!['s', 'c', 'f'],
+                        2 => vec!['s', 'c', 'c', 'f', 'c'],
+                        3 => vec!['S', 'c', 'a'],
+                        4 => vec!['s', 'r', 'c', 'f'],
+                        _ => vec!['s', 'c', 'r', 'c'],
+                    };
+                    if r.chance(1, 3) {
+                        v.push(*r.pick(&['c', 'f', 'a', 'p', 'w']));
+                    }
+                    v.reverse();
+                    v
+                })
+                .collect();
+            loop {
+                let live: Vec<usize> = (0..nt).filter(|i| !scripts[*i].is_empty()).collect();
+                if live.is_empty() {
+                    break;
+                }
+                let i = *r.pick(&live);
+                let a = scripts[i].pop().unwrap();
+                acts.push(format!("{a}{i}"));
+            }
+        } else {
+            let len = 3 + r.below(24) as usize;
+            for _ in 0..len {
+                let i = r.below(nt as u64) as usize;
+                let a = *r.pick(&['s', 's', 's', 'S', 'c', 'c', 'c', 'f', 'f', 'f', 'w', 'k', 'r', 'a', 'p']);
+                acts.push(format!("{a}{i}"));
+            }
+        }
+        writeln!(out, "lset {kinds} {}", acts.join(" ")).unwrap();
+    }
+}
+
 fn main() {
     let args: Vec<String> = std::env::args().collect();
     match args.get(1).map(String::as_str) {
@@ -861,12 +934,13 @@ fn main() {
         Some("gen-mixed") => gen_mixed(args[2].parse().unwrap(), args[3].parse().unwrap()),
         Some("gen-exh") => {
             let host = args.get(3).map(String::as_str).unwrap_or("cmd");
-            if host == "legacy" {
-                gen_exh_legacy(args[2].parse().unwrap())
+            if host == "legacy" || host == "lset" {
+                gen_exh_legacy(args[2].parse().unwrap(), host)
             } else {
                 gen_exh(args[2].parse().unwrap(), host, args.get(4).map(String::as_str).unwrap_or("alt"))
             }
         }
+        Some("gen-lset") => gen_lset(args[2].parse().unwrap(), args[3].parse().unwrap()),
         Some("gen-threads") => {
             let mut r = Rng::new(args[2].parse().unwrap());
             for _ in 0..args[3].parse::<usize>().unwrap() {
